@@ -402,6 +402,32 @@ pub fn generate(tier: &str, rng: &mut Rng, out: &mut Vec<String>) {
         }
     }
 
+    // ---- tonic's own stacks around the generated code (see `run_stk`)
+    for j in [0usize, 3, 4, 5] {
+        for (csnd, cacc, sacc, ssnd) in
+            [("g", "g", "g", "g"), ("z", "dz", "gz", "zd"), ("d", "-", "-", "g"), ("-", "gdz", "d", "zg"), ("g", "zd", "gdz", "-"), ("-", "-", "gdz", "gdz"), ("d", "zg", "d", "g"), ("z", "g", "zd", "dz")]
+        {
+            for opts in [0u32, 1, 2, 4, 8, 16, 32, 63] {
+                out.push(format!("stk.{} {} {} {} {} {} {}", j, csnd, cacc, sacc, ssnd, (j + cacc.len()) % 4, opts));
+            }
+        }
+    }
+    let nstk = if thorough { 6000 } else { 150 };
+    for _ in 0..nstk {
+        let sub = super::ordered_subsets();
+        let csnd = rng.pick(&["-", "g", "d", "z", "gz"]).to_string();
+        out.push(format!(
+            "stk.{} {} {} {} {} {} {}",
+            rng.pick(&[0usize, 3, 4, 5]),
+            csnd,
+            rng.pick(&sub),
+            rng.pick(&sub),
+            rng.pick(&sub),
+            rng.below(4),
+            rng.below(64)
+        ));
+    }
+
     // ---- LARGE messages (plain cases and with odd buffer settings): around the codec buffer size
     // (8 KiB), around the encoder's yield threshold (32 KiB), beyond 64 KiB
     let sizes: &[usize] = if thorough { &[1024, 4096, 8187, 8192, 8193, 32763, 32768, 40000, 70000] } else { &[1024, 8193, 40000] };
@@ -536,4 +562,163 @@ pub fn generate(tier: &str, rng: &mut Rng, out: &mut Vec<String>) {
             hex(&super::message(rng))
         ));
     }
+}
+
+// ---------------------------------------------------------------- tonic's own stacks
+//
+//   stk.<j> <cli snd calls> <cli acc calls> <srv acc calls> <srv snd calls> <n> <opts>
+// The `gen.` experiment with tonic's own stacks on both sides: the generated client sits on a real
+// `transport::Channel` (hyper / h2 over an in-memory pipe; Endpoint middleware per `opts`), the
+// generated server is hosted by `transport::Server` (its Routes and middleware stack per `opts`),
+// and the recording service is a tower layer of that server.  Observation and expectation are
+// those of `gen.`: none of these layers may add, drop or rewrite the negotiation headers or touch
+// the frames.
+//   opts (bit mask): 1 `Server::timeout`   2 `concurrency_limit_per_connection`
+//                    4 Endpoint `timeout` + `user_agent` + `origin`   8 Endpoint `concurrency_limit`
+//                    16 the service is added through `Routes` (`add_routes`)
+//                    32 pass-through interceptors on both sides
+
+struct Pipe(tokio::io::DuplexStream);
+impl tonic::transport::server::Connected for Pipe {
+    type ConnectInfo = ();
+    fn connect_info(&self) {}
+}
+impl tokio::io::AsyncRead for Pipe {
+    fn poll_read(mut self: Pin<&mut Self>, cx: &mut Context<'_>, buf: &mut tokio::io::ReadBuf<'_>) -> Poll<std::io::Result<()>> {
+        Pin::new(&mut self.0).poll_read(cx, buf)
+    }
+}
+impl tokio::io::AsyncWrite for Pipe {
+    fn poll_write(mut self: Pin<&mut Self>, cx: &mut Context<'_>, buf: &[u8]) -> Poll<std::io::Result<usize>> {
+        Pin::new(&mut self.0).poll_write(cx, buf)
+    }
+    fn poll_flush(mut self: Pin<&mut Self>, cx: &mut Context<'_>) -> Poll<std::io::Result<()>> {
+        Pin::new(&mut self.0).poll_flush(cx)
+    }
+    fn poll_shutdown(mut self: Pin<&mut Self>, cx: &mut Context<'_>) -> Poll<std::io::Result<()>> {
+        Pin::new(&mut self.0).poll_shutdown(cx)
+    }
+}
+
+pub fn run_stk(j: &str, c: &mut super::Cur<'_>) -> Option<String> {
+    use super::{enc_of, GenWire, RecTransport, RT};
+    use crate::c10::pool::{self, Handler};
+    use std::sync::{Arc, Mutex};
+    use std::time::Duration;
+    use tonic::Request;
+    let j: usize = j.parse().ok()?;
+    let csnd = c.next()?.to_string();
+    let cacc = c.next()?.to_string();
+    let sacc = c.next()?;
+    let ssnd = c.next()?;
+    let n = c.num()?;
+    let opts = c.num()? as u32;
+    let mut srv = pool::p0::s_server::SServer::new(Handler::default());
+    for ch in sacc.chars().filter(|c| *c != '-') {
+        srv = srv.accept_compressed(enc_of(ch)?);
+    }
+    for ch in ssnd.chars().filter(|c| *c != '-') {
+        srv = srv.send_compressed(enc_of(ch)?);
+    }
+    for ch in csnd.chars().chain(cacc.chars()).filter(|c| *c != '-') {
+        enc_of(ch)?;
+    }
+    let wire = Arc::new(Mutex::new(GenWire::default()));
+    let arg = "x".repeat(n);
+    fn pass(r: Request<()>) -> Result<Request<()>, Status> {
+        Ok(r)
+    }
+    let out = RT.with(|rt| {
+        rt.block_on(async {
+            let (cio, sio) = tokio::io::duplex(1 << 16);
+            let w2 = wire.clone();
+            let mut builder = tonic::transport::Server::builder();
+            if opts & 1 != 0 {
+                builder = builder.timeout(Duration::from_secs(60));
+            }
+            if opts & 2 != 0 {
+                builder = builder.concurrency_limit_per_connection(4);
+            }
+            let mut builder = builder.layer(tower::layer::layer_fn(move |s| RecTransport { inner: s, wire: w2.clone() }));
+            let router = match (opts & 16 != 0, opts & 32 != 0) {
+                (false, false) => builder.add_service(srv),
+                (false, true) => builder.add_service(tonic::service::interceptor::InterceptedService::new(srv, pass as fn(Request<()>) -> Result<Request<()>, Status>)),
+                (true, false) => builder.add_routes(tonic::service::Routes::new(srv)),
+                (true, true) => builder.add_routes(tonic::service::Routes::new(tonic::service::interceptor::InterceptedService::new(srv, pass as fn(Request<()>) -> Result<Request<()>, Status>))),
+            };
+            let incoming = {
+                use tokio_stream::StreamExt;
+                tokio_stream::iter(vec![Ok::<_, std::io::Error>(Pipe(sio))]).chain(tokio_stream::pending())
+            };
+            let (stop_tx, stop_rx) = tokio::sync::oneshot::channel::<()>();
+            let server = tokio::spawn(async move {
+                let _ = router
+                    .serve_with_incoming_shutdown(incoming, async move {
+                        let _ = stop_rx.await;
+                    })
+                    .await;
+            });
+            let mut ep = tonic::transport::Endpoint::from_static("http://[::]:50051");
+            if opts & 4 != 0 {
+                ep = ep.timeout(Duration::from_secs(60)).user_agent("aC05").unwrap().origin(http::Uri::from_static("http://origin.test"));
+            }
+            if opts & 8 != 0 {
+                ep = ep.concurrency_limit(2);
+            }
+            let mut cio = Some(cio);
+            let channel = match ep
+                .connect_with_connector(tower::service_fn(move |_: http::Uri| {
+                    let c = cio.take();
+                    async move { c.map(hyper_util::rt::TokioIo::new).ok_or_else(|| std::io::Error::other("used")) }
+                }))
+                .await
+            {
+                Ok(ch) => ch,
+                Err(_) => return "connect-failed".to_string(),
+            };
+            macro_rules! drive {
+                ($cli:expr) => {{
+                    let mut cli = $cli;
+                    for ch in csnd.chars().filter(|c| *c != '-') {
+                        cli = cli.send_compressed(enc_of(ch).unwrap());
+                    }
+                    for ch in cacc.chars().filter(|c| *c != '-') {
+                        cli = cli.accept_compressed(enc_of(ch).unwrap());
+                    }
+                    let fut = async {
+                        let r: Result<usize, Status> = match j {
+                            0 => cli.m0(Request::new(arg.clone())).await.map(|_| 1),
+                            3 => match cli.m3(Request::new(arg.clone())).await {
+                                Ok(s) => pool::drain(s.into_inner()).await.map(|v| v.len()),
+                                Err(e) => Err(e),
+                            },
+                            4 => cli.m4(Request::new(items(vec![arg.clone(), arg.clone()]))).await.map(|_| 1),
+                            _ => match cli.m5(Request::new(items(vec![arg.clone(), arg.clone()]))).await {
+                                Ok(s) => pool::drain(s.into_inner()).await.map(|v| v.len()),
+                                Err(e) => Err(e),
+                            },
+                        };
+                        match r {
+                            Ok(_) => "ok".to_string(),
+                            Err(st) => format!("err{}", st.code() as i32),
+                        }
+                    };
+                    match tokio::time::timeout(Duration::from_secs(20), fut).await {
+                        Ok(o) => o,
+                        Err(_) => "hang".to_string(),
+                    }
+                }};
+            }
+            let out = if opts & 32 != 0 {
+                drive!(pool::p0::s_client::SClient::with_interceptor(channel, pass as fn(Request<()>) -> Result<Request<()>, Status>))
+            } else {
+                drive!(pool::p0::s_client::SClient::new(channel))
+            };
+            let _ = stop_tx.send(());
+            let _ = tokio::time::timeout(Duration::from_secs(5), server).await;
+            out
+        })
+    });
+    let w = wire.lock().unwrap();
+    Some(format!("qe={} qa={} qf={} re={} rf={} out={}", w.qe, w.qa, w.qf, w.re, w.rf, out))
 }
